@@ -178,7 +178,7 @@ class RIPEntry (packet_base):
     self._netmask = cidr_to_netmask(bits)
 
   def hdr (self, payload):
-    s = struct.pack("!HHiiii", self.address_family, self.route_tag,
+    s = struct.pack("!HHiiiI", self.address_family, self.route_tag,
                     self.ip.toSigned(networkOrder=False),
                     self.netmask.toSigned(networkOrder=False),
                     self.next_hop.toSigned(networkOrder=False),
@@ -188,7 +188,7 @@ class RIPEntry (packet_base):
 
   def parse (self, raw):
     self.address_family, self.route_tag, ip, netmask, next_hop, self.metric \
-     = struct.unpack("!HHiiii", raw)
+     = struct.unpack("!HHiiiI", raw)
     self.ip = IPAddr(ip, networkOrder = False)
     self._netmask = IPAddr(netmask, networkOrder = False)
     self.next_hop = IPAddr(next_hop, networkOrder = False)
